@@ -161,6 +161,8 @@ def run_x03(pid: str, tier: str) -> int:
 def run(pid: str, tier: str) -> int:
     if pid == 'X02':
         return run_x02(pid, tier)
+    if pid == 'X04':
+        return run_x04(pid, tier)
     if pid == 'X03':
         return run_x03(pid, tier)
     os.environ['VERIF_EVIDENCE_DIR'] = str(VERIF / 'evidence_extra')
@@ -187,4 +189,73 @@ def run(pid: str, tier: str) -> int:
     rejects = validate_traces(chk, 'DuplicateTrace', events, 'real Table / Team vs Duplicate.tla',
                               shards=1)
     report_rejects(chk, rejects, 'duplicate', key_of=lambda x: f'duplicate:{x.clause}')
+    return chk.finish()
+
+
+def run_x04(pid: str, tier: str) -> int:
+    """Commentary in PBN files (extract_content): Pbn.tla with TagC / Open0 /
+    CText / Close lines; the real parser on every generated layout."""
+    import json
+    from . import core, pbn
+    from .core import design_check, pmap, seed
+    core.EVIDENCE = VERIF / 'evidence_extra'
+    chk = Check(pid, tier)
+    chk.rule = ('a case is one PBN file with commentary read by the real parser; '
+                'distinct_nontrivial counts distinct files with at least one game')
+    quick = tier == 'quick'
+    kw = dict(maxgames=2, b0=(0, 1), mid=(1, 2), be=(0, 1), headers=(0, 1), orders=3 if quick else 12)
+    design_check(chk, 'Pbn', pbn.pbn_cfg(invs=['ParsesBack'], comments=('none', 'semi', 'brace', 'block'), **kw),
+                 'Pbn: commentary after a tag pair (to end of line, braces on one line, braces over '
+                 'several lines with blank lines, tag pairs and % lines inside) does not change the games',
+                 constants=str(kw), workers=8)
+    design_check(chk, 'Pbn', pbn.pbn_cfg(invs=['ParsesBack'], comments=('block0',), **kw),
+                 'Pbn as coded: a brace comment that starts in the first column is not recognised '
+                 '(documented deviation from the PBN standard)',
+                 constants='CommentStyles={block0} Col0Comments=FALSE', expect_violation='ParsesBack',
+                 workers=4)
+    design_check(chk, 'Pbn', pbn.pbn_cfg(invs=['ParsesBack'], comments=('block0', 'block'), col0=True, **kw),
+                 'Pbn with first-column comments recognised (the standard): games unchanged',
+                 constants='Col0Comments=TRUE', workers=4)
+    allc = ('none', 'semi', 'brace', 'block', 'block0')
+    res = tlc.run_tlc('Pbn', pbn.pbn_cfg(invs=['Export'], comments=allc, **kw), workers=1,
+                      name='pbn-export-comments', timeout=3000, long_run=True)
+    tlc.require_clean(res, 'pbn export with commentary')
+    chk.add_tlc(res, 'export of every generated layout with commentary')
+    layouts = list(res.json_lines)
+    if len(layouts) != res.distinct:
+        raise MachineryError(f'exported {len(layouts)} layouts for {res.distinct} states')
+    wd = tlc.fresh('pbncomments')
+    wd.mkdir(parents=True)
+    per = 100
+    jobs = [(f'K{a}', layouts[a:a + per], seed(), str(wd)) for a in range(0, len(layouts), per)]
+    events: List[Dict[str, Any]] = []
+    deviations = 0
+    by_tid = {}
+    for (tid0, lays, _, _) in jobs:
+        for li, lay in enumerate(lays):
+            by_tid[f'{tid0}.{li}'] = lay['meta']['cs']
+    for evs, bad in pmap(pbn.render_job, jobs):
+        for e in evs:
+            cs = by_tid[e['tid'].rstrip('s')]
+            if cs == 'block0':
+                if e['ev'] == 'settings':
+                    continue          # as coded the games are broken up: not boards any more
+            events.append(e)
+        for b in bad:
+            if b['meta']['cs'] == 'block0':
+                deviations += 1
+            else:
+                chk.violation(f'pbn-comments:{b["what"]}:{json.dumps(b["meta"], sort_keys=True)[:100]}',
+                              f'real PbnParser on a layout with commentary: {b["what"]} gave '
+                              f'{str(b.get("observed", b.get("msg")))[:300]} expected {str(b.get("expected"))[:300]}',
+                              {'kind': 'pbn-layout', **b})
+    for e in events:
+        chk.evaluations += 1
+        if e['ev'] == 'parse' and any(l['k'] in ('tag', 'tagc') for l in e['lines']):
+            chk.distinct.add(hash(json.dumps(e['lines'])))
+    chk.extra['layouts'] = len(layouts)
+    chk.extra['first_column_comment_deviations_observed'] = deviations
+    chk.sample(next(e for e in events if any(l['k'] == 'close' for l in e.get('lines', []))))
+    rejects = validate_traces(chk, 'PbnTrace', events, 'real PbnParser vs Pbn!ParseFile with commentary')
+    report_rejects(chk, rejects, 'pbn-comments', key_of=lambda x: f'pbn-comments:{x.clause}')
     return chk.finish()
